@@ -8,7 +8,10 @@ EXPLANATION = ("r1 inventory: every panic-capable construct reachable from inter
                "ResolveEdgeInfo::edge/destination, DynamicallyResolvedValue::resolve/resolve_with) must have an audit entry "
                "(class + reason) or be a listed known finding. r2 guards the audit relies on: G-ARGS (interpret_ir validates "
                "the arguments first and returns the error; C12 decides what that validation accepts), G-CARRIER (C02's bracket "
-               "rule, re-evaluated here), G-OPTYPES (filter operand types are validated in the frontend; C10 r3).")
+               "rule, re-evaluated here), G-OPTYPES (filter operand types are validated in the frontend; C10 r3), G-ARGS-TABLE "
+               "(C12 r1/r2 re-evaluated). r3: the comparison functions never panic on operand pairs the frontend admits (C07's "
+               "tables). r4: the @recurse entry closure and exit closure, evaluated in sequence on every arriving context shape "
+               "(source vertex present / absent x suspension stack), never panic and restore the context.")
 ASSUMPTIONS = ["the adapter honours the documented contract (CONTRACT entries) and returns values of the declared property types",
                "the reasons in the audit table were made by reading; the check decides set equality and guard presence"]
 
@@ -27,6 +30,70 @@ def hint_entries(C):
         elif f["path"].startswith(H + "dynamic::DynamicallyResolvedValue") and f.get("name") in ("resolve", "resolve_with"):
             out.append(f["path"])
     return out
+
+
+def recursion_suspension_pairing(ctx, R):
+    """r4: DataContext::ensure_unsuspended pops the suspension stack and unwraps (audited as INVARIANT: "whoever is un-suspended was
+    suspended, or carries a marker"). The invariant is made by two closures that sit far apart: the one expand_recursive_edge
+    applies to every context on entry, and the one post_process_recursive_expansion applies on exit. They are evaluated in
+    sequence on the context shapes that can arrive - the recursion's source vertex present, or absent (a @recurse inside an
+    @optional that does not exist for this row), with an empty or non-empty stack: the composition must not panic and must hand
+    back the context as it came (same active vertex, same stack)."""
+    from tfv import absint as A
+    from tfv import stdmodel as M
+    C = ctx.core
+    X = T + "interpreter::execution::"
+    R.rule("r4", "@recurse entry / exit closures are paired: entry then exit never panics and restores the context, also when the source vertex is absent")
+    er, pp = C.fn(X + "expand_recursive_edge"), C.fn(X + "post_process_recursive_expansion")
+    if er is None or pp is None:
+        R.fail("r4", "anchor", "-", "expand_recursive_edge / post_process_recursive_expansion not found")
+        return
+
+    def closures(f, must_call):
+        return [n for n in walk(f["body"]) if n.get("k") == "closure" and any(c.get("name") == must_call for c in calls_in(n["body"]))]
+    entry, exit_ = closures(er, "activate_vertex"), closures(pp, "ensure_unsuspended")
+    if len(entry) != 1 or len(exit_) != 1:
+        R.fail("r4", "anchor:closures", C.loc(er["sp"]), "expected one entry closure calling activate_vertex and one exit closure calling ensure_unsuspended "
+               "(found %d / %d)" % (len(entry), len(exit_)))
+        return
+    DCP = T + "interpreter::DataContext"
+    adt = C.adt_by_path.get(DCP)
+    other = [fl["name"] for fl in adt["variants"][0]["fields"] if fl["name"] not in ("active_vertex", "suspended_vertices", "vertices", "piggyback")] if adt else []
+    vid_lets = [n for n in walk(er["body"]) if n.get("k") == "let" and n.get("pat", {}).get("k") == "bind" and (C.S(n["pat"].get("ty")) or "").endswith("ir::Vid")]
+    I = M.intrinsics()
+    bad = None
+    n = 0
+    try:
+        for present in (True, False):
+            for stack in ([], ["w"], [None]):
+                src = M.some(A.Sym("v")) if present else M.none()
+                me = {"active_vertex": M.some(A.Sym("prev")) if present else M.none(),
+                      "vertices": M.MapV([(7, src)]),
+                      "suspended_vertices": A.VecV([M.some(A.Sym(x)) if x else M.none() for x in stack]), "piggyback": M.none()}
+                for o in other:
+                    me[o] = A.Sym("field:" + o)
+                env = {l["pat"]["bid"]: A.Cell(7) for l in vid_lets}
+                ip = A.Interp(C, I)
+                mid = ip.call_closure(("closure", entry[0], env), [A.Struct(DCP, me)])
+                out = A.deref(A.Interp(C, I).call_closure(("closure", exit_[0], {}), [mid]))
+                n += 1
+                av = A.deref(out.fields["active_vertex"])
+                st = [A.deref(x) for x in A.deref(out.fields["suspended_vertices"]).items]
+                got = (A.deref(av.fields[0]).name if av.variant == "Some" else None,
+                       [A.deref(x.fields[0]).name if x.variant == "Some" else None for x in st])
+                want = ("v" if present else None, list(stack))
+                if got != want and bad is None:
+                    bad = ("present" if present else "absent", stack, "gives (active, stack) = %s, expected %s" % (got, want))
+    except A.PanicReached as e:
+        bad = ("present" if present else "absent", stack, "panics: %s" % e.what)
+    except A.Unsupported as e:
+        R.fail("r4", "unanalysable", C.loc(er["sp"]), "cannot evaluate the @recurse entry / exit closures: %s (fail closed)" % e)
+        return
+    R.floor("r4", "context shapes", n if bad is None else 6, 6)
+    R.check(bad is None, "r4", "recursion-entry-exit-pairing", C.loc(entry[0]["sp"]),
+            "a context whose @recurse source vertex is %s, with suspension stack %s, run through the entry closure of expand_recursive_edge and "
+            "the exit closure of post_process_recursive_expansion %s (a @recurse inside an @optional that does not exist for the row)"
+            % (bad or ("", "", "")), {"shapes": n})
 
 
 def run(ctx, R):
@@ -77,6 +144,8 @@ def run(ctx, R):
             if n.get("k") == "if" and any((c.get("callee") or "").endswith("operand_types_valid") for c in calls_in(n["cond"])):
                 ok = any(x.get("k") == "ctor" and x.get("variant") == "Err" for x in walk(n["then"]))
     R.check(ok, "r2", "G-OPTYPES", C.loc(mf["sp"]) if mf else "-", "make_filter_expr must validate operand types and return the errors")
+
+    recursion_suspension_pairing(ctx, R)
 
     # r3: semantic discharge of the comparison functions' own panic sites (the audit lists their `unreachable!` as guarded by
     # the operand-type validation): evaluated on every operand pair the frontend admits - same scalar type, mixed integer
